@@ -79,6 +79,15 @@ KNOWN = [
     ("C16", None, {"sig": "zs2:sqrt-raises"}, "ZSqrtTwo.sqrt() raises ValueError for negative arguments instead of returning None (also crashes _solve_diophantine(ZSqrtTwo(-3, 0)))"),
     ("C16", None, {"sig": "dyadic:eq-noncanonical:k<=0"}, "equal-valued DyadicMatrix objects compare unequal for k <= 0 (sqrt(2) factor only stripped while k > 0)"),
     ("C45", None, {"sig": "indices-str"}, "Wires.indices('ab') iterates a string label character by character although str is documented as accepted"),
+    ("C08", "says-commute-but-matrices-do-not", {"sig": "re:(CSWAP|SWAP|ISWAP|SISWAP|PSWAP)\\|(CSWAP|SWAP|ISWAP|SISWAP|PSWAP)"},
+     "is_commuting returns True for SWAP-family gates with partial wire overlap, e.g. CSWAP([0,1,2]) vs SWAP([2,3]) or PSWAP vs an overlapping PSWAP (lookup table ignores wire alignment)"),
+    ("C11", "emitted-type-not-declared", {"sig": "ctrl_single_work_wire:only-work_wires-differs"}, "ctrl_single_work_wire declares user work wires on the inner controlled ops but emits them without work wires"),
+    ("C11", "exact-count-mismatch", {"sig": "re:QAOAEmbedding:_qaoa_embedding_decomposition.*"}, "QAOAEmbedding on one wire declares `repeat` MultiRZ gates but emits none"),
+    ("C11", "emitted-type-not-declared", {"sig": "any:only-mcx_alias-differs"}, "rules emit CNOT/Toffoli (qp.ctrl dispatch) where the resources declare MultiControlledX on 2/3 wires"),
+    ("C11", "emitted-type-not-declared", {"sig": "re:OutMultiplier:_out_multiplier_with_qft.*"}, "OutMultiplier QFT rule with one output wire emits ChangeOpBasis(compute_op=Hadamard) but declares compute_op=Prod"),
+    ("C11", "emitted-type-not-declared", {"sig": "re:QROM:_qrom_decomposition.*"}, "adjoint(controlled(QROM rule)): nested Prod resources key Identity by representation vs class"),
+    ("C11", "emitted-type-not-declared", {"sig": "re:generic:decompose_select_pauli_rot.*"}, "SelectPauliRot with all-zero angles emits a Prod without the declared RZ type"),
+    ("C11", "emitted-type-not-declared", {"sig": "re:generic:flip_control_adjoint.*"}, "flip_control_adjoint on C(Adjoint(PhaseShift)) emits Adjoint(ControlledPhaseShift), not among the declared types"),
     ("C28", "kraus-channel", {"channel": "ThermalRelaxationError", "regime": "t2>t1,tg>4*t2"}, "ThermalRelaxationError Kraus operators are not trace preserving for T2 > T1 and tg >> T2 (stability epsilon dominates)"),
     ("C28", "result-shape", {"batch1_csr_obs": True}, "expval(LinearCombination / SparseHamiltonian) with a broadcast parameter of batch size one loses the batch axis (math.squeeze in csr_dot_products; default.qubit has the same squeeze)"),
     ("C28", "kraus-complete", {"channel": "ThermalRelaxationError", "regime": "t2>t1,tg>4*t2"}, "ThermalRelaxationError Kraus operators are not trace preserving for T2 > T1 and tg >> T2 (stability epsilon dominates)"),
